@@ -73,6 +73,7 @@ SHIFT = [-37.25, 112.5, -20.5]
 TILTS = {'tiltx': (0.1, 0.0), 'tilty': (0.0, 0.2)}
 TRANSFORMS = ('id', 'rot90', 'rot30', 'shift', 'tiltx', 'tilty')
 CENTRES = ('off1', 'off2', 'off3', 'off4', 'offall')
+SCALES = (1e-4, 1e-3, 1e-2, 1e2, 1e4)     # length scales: edges of 0.075 mm ... 25 km (1e-3 straddles 1 mm)
 Z0S = (0.0, 0.5, 1.0, 2.0, 3.5, -2.0)      # vertical origins: an exact 0.0 at the top, inside layer 1, at its bottom,
                                             # inside layer 2, at its bottom, above the top layer
 RTOL = 1e-9
@@ -260,6 +261,11 @@ def geom_spec(desc):
         spec = MIX if kind == 'mix' else TQ
         if len(desc) > 1:        # every elevation shifted by desc[1]
             spec = dict(spec, top=spec['top'] + desc[1], bottoms=[b + desc[1] for b in spec['bottoms']])
+    elif kind in ('mixs', 'tqs'):
+        base, f = (MIX if kind == 'mixs' else TQ), desc[1]
+        spec = {'nodes': [(x * f, y * f) for (x, y) in base['nodes']],
+                'cols': [(ring, None if c is None else (c[0] * f, c[1] * f)) for (ring, c) in base['cols']],
+                'cons': base['cons'], 'top': base['top'] * f, 'bottoms': [b * f for b in base['bottoms']]}
     elif kind == 'mixr':
         geo = build_from_spec(MIX, 'c0')
         geo.refine([geo.columnlist[0]])
@@ -288,6 +294,12 @@ def build(desc, naming, transform):
     with quiet():
         if desc[0] == 'file':
             geo = shipped(desc[1])
+        elif naming.startswith('lib') and desc[0] == 'rects':
+            # the rectangular shapes at another length scale: every spacing and the origin times f
+            nx, ny, nz, f = desc[1:5]
+            geo = mulgrids.mulgrid().rectangular([v * f for v in XS[:nx]], [v * f for v in YS[:ny]],
+                                                 [v * f for v in ZS[:nz]], convention=int(naming[3]),
+                                                 atmos_type=2, origin=[v * f for v in ORIGIN])
         elif naming.startswith('lib'):
             nx, ny, nz = desc[1:4]
             origin = list(ORIGIN) if len(desc) < 5 else [ORIGIN[0], ORIGIN[1], desc[4]]
@@ -317,17 +329,18 @@ def build(desc, naming, transform):
     return geo
 
 
-def surface_alphabet(geo):
-    """The six surface elevations, placed on the geometry's own layer elevations."""
+def surface_alphabet(geo, f=1.0):
+    """The six surface elevations, placed on the geometry's own layer elevations (f: length scale of the
+    geometry, applied to the two absolute offsets)."""
     lays = geo.layerlist
     top = float(lays[0].bottom)
     b1, b2 = float(lays[1].bottom), float(lays[2].bottom)
-    return [top + 0.75,
+    return [top + 0.75 * f,
             top,
             b1 + 0.375 * (top - b1),
             b1,
             b2 + 0.375 * (b1 - b2),
-            float(lays[-2].bottom) + 0.015625]
+            float(lays[-2].bottom) + 0.015625 * f]
 
 
 def surface_sets(mode, ncol, pairs, nval=6):
@@ -399,7 +412,7 @@ class Ctx(object):
             raise core.HarnessError('naming %s gives duplicate block names on %r' % (naming, desc))
         self.raw = R.extract(geo)
         self.st = R.Static(self.raw)
-        self.alphabet = surface_alphabet(geo)
+        self.alphabet = surface_alphabet(geo, desc[-1] if desc[0] in ('rects', 'mixs', 'tqs') else 1.0)
         if (desc[0] == 'rect' and len(desc) == 5) or (desc[0] in ('mix', 'tq') and len(desc) == 2):
             # geometries placed so that an exact 0.0 is a legal surface elevation: 0.0 and -0.0 join the alphabet
             if 0.0 > float(geo.layerlist[-1].bottom):
@@ -947,6 +960,13 @@ def units(tier):
         for naming in (LIBN if thorough else (('lib0',) if desc[3] < 4 else ())):
             us.append(U(desc, naming, 'id', 'k1', orders=ALL_ORD if thorough else (None,), angles=(0.0,),
                         bmaps=('none', 'full') if thorough else ('none',), routes=ROUTES))
+        # "arbitrary spacings": the same shapes at laboratory and regional length scales
+        if thorough or desc[3] < 4:
+            for f in SCALES:
+                for atm in ALL_ATM:
+                    us.append(U(('rects',) + desc[1:] + (f,), 'lib0', 'id', 'k1', atms=(atm,), orders=(None,),
+                                angles=ANGLES if thorough else (0.0,),
+                                bmaps=('none', 'full') if thorough else ('none',)))
         # an exact 0.0 as a legal elevation: at the top, inside a layer, on a layer boundary, above the top layer;
         # surfaces 0.0 and -0.0 join the alphabet
         if thorough or desc[3] < 4:
@@ -995,6 +1015,9 @@ def units(tier):
                 us.append(U(desc, 'c0', cm, 'k1', atms=(atm,), orders=(None,), angles=(0.0,),
                             bmaps=('none', 'full') if thorough else ('none',), routes=('direct', 'file%d' % atm)))
         if desc != ('mixr',):
+            for f in SCALES:
+                us.append(U((desc[0] + 's', f), 'c0', 'id', 'k1', orders=(None,),
+                            angles=ANGLES if thorough else (0.0,), bmaps=('none', 'full') if thorough else ('none',)))
             dz = -8.0 if desc == ('mix',) else -3.0          # 0.0 falls inside layer 2
             us.append(U(desc + (dz,), 'c0', 'id', 'k2z' if thorough else 'k1z', orders=(None,), angles=(0.0,),
                         bmaps=('none', 'full') if thorough else ('none',)))
@@ -1125,6 +1148,7 @@ def finalize(rec, tier):
         'transforms (rot90, rot30, shift, tiltx, tilty)': 'crossed with the options, surfaces k <= 1 '
                                                           '(base surface on g7 and refinements)',
         'shipped geometries as read': 'g1..g7 (also rotated 30, shifted, tilted)' if tier == 'thorough' else 'g1, g5, g7',
+        'length scale': 'x 1e-4, 1e-3, 1e-2, 1, 1e2, 1e4 on the rectangular shapes and the hand-made meshes',
         'absolute placement': 'an exact 0.0 at the top / inside a layer / on a layer boundary / above the top layer, with 0.0 '
         'and -0.0 as surface values',
         'layer centres': 'mid-point | one layer off the mid-point | all layers off; in memory and read from a file',
@@ -1158,6 +1182,8 @@ BOUNDS = {
               'transforms': 'nz = 3 shapes and the hand-made meshes, one convention, k <= 1',
               'routes': 'nz <= 3 shapes (convention 0), mix / tq (conventions 0, 1), mix refined (0): 8 routes x 3 atmosphere '
                         'types x k <= 1; g7 base surface',
+              'length scales': 'nz <= 3 shapes, mix, tq x scales 1e-4, 1e-3, 1e-2, 1e2, 1e4 (all spacings, origin, elevations), k <= 1, '
+                               '3 atmosphere types',
               'exact zero': 'nz <= 3 shapes x 6 vertical origins (0.0 at the top, inside layer 1, at its bottom, inside layer 2, '
                             'at its bottom, above the top layer), mix / tq shifted so that 0.0 is inside layer 2: alphabet + {0.0, -0.0}, '
                             'k <= 1 and every uniform assignment, 3 atmosphere types',
@@ -1175,6 +1201,7 @@ BOUNDS = {
                  'transforms': 'every shape x 4 conventions x all options, k <= 1',
                  'routes': 'every rectangular shape x 4 conventions, mix / tq / mix refined x 4 conventions: 8 routes x 3 atmosphere '
                            'types x {None, dmplex} x {no map, full} x k <= 1; g7 base surface',
+                 'length scales': 'every shape, mix, tq x 5 scales x 3 atmosphere types x 3 angles x {no map, full}, k <= 1',
                  'exact zero': 'every shape x 6 vertical origins x conventions 0, 2 x {no map, full}; alphabet + {0.0, -0.0}, '
                                'k <= 2 and every uniform assignment',
                  'layer centres': 'every shape and hand-made mesh: each single layer and all layers off the mid-point, in memory, '
